@@ -1194,7 +1194,37 @@ def leafEnumGoType : Leaf → Bool
   | .deep sprops _ => sprops.any (fun kv => match kv.2 with
     | .prim ps => psEnumInt32 ps | .arr it => psEnumInt32 it | .obj sub _ => sub.any (fun x => psEnumInt32 x.2))
 
-def EnumGoType (p : Param) : Bool := (schLeaves p.schema).any leafEnumGoType
+/-- in a composition a value read by one alternative is validated against every alternative: an int32 (or an array of
+integers) produced by one leaf meets the enum of another -/
+def psHasEnum (ps : PS) : Bool := !ps.enum.isEmpty
+def leafHasInt32 : Leaf → Bool
+  | .prim ps => ps.t = .int32
+  | .arr items _ _ _ => items.t = .int32
+  | .obj sprops _ addl => sprops.any (fun kv => kv.2.t = .int32) || (match addl with | some a => a.t = .int32 | none => false)
+  | .deep sprops _ => sprops.any (fun kv => match kv.2 with
+    | .prim ps => ps.t = .int32 | .arr it => it.t = .int32 | .obj sub _ => sub.any (fun x => x.2.t = .int32))
+def leafHasEnum : Leaf → Bool
+  | .prim ps => psHasEnum ps
+  | .arr items _ _ _ => psHasEnum items
+  | .obj sprops _ addl => sprops.any (fun kv => psHasEnum kv.2) || (match addl with | some a => psHasEnum a | none => false)
+  | .deep sprops _ => sprops.any (fun kv => match kv.2 with
+    | .prim ps => psHasEnum ps | .arr it => psHasEnum it | .obj sub _ => sub.any (fun x => psHasEnum x.2))
+def leafArrInt : Leaf → Bool
+  | .arr items _ _ _ => psIsInt items
+  | _ => false
+def leafArrEnum : Leaf → Bool
+  | .arr _ _ _ enum => !enum.isEmpty
+  | _ => false
+
+def isComposition : Sch → Bool
+  | .leaf _ => false
+  | _ => true
+
+def EnumGoType (p : Param) : Bool :=
+  (schLeaves p.schema).any leafEnumGoType ||
+  (isComposition p.schema &&
+    (((schLeaves p.schema).any leafHasInt32 && (schLeaves p.schema).any leafHasEnum) ||
+     ((schLeaves p.schema).any leafArrInt && (schLeaves p.schema).any leafArrEnum)))
 
 /-- query, form, explode=true, an object schema without additionalProperties schema, other query parameters
 present but none of the object's declared properties: the parameter is absent, the code decodes `{}` -/
